@@ -476,11 +476,13 @@ func waitTeardown(s *Session, timeout time.Duration) bool {
 	deadline := time.Now().Add(timeout)
 	for {
 		fenceOnce(5 * time.Second)
-		s.shutdownLock.Lock()
-		done := s.queueManager == nil
-		s.shutdownLock.Unlock()
-		if done {
-			return true
+		// TryLock: a teardown that is stuck on the event loop holds this lock for ever; the wait must stay bounded
+		if s.shutdownLock.TryLock() {
+			done := s.queueManager == nil
+			s.shutdownLock.Unlock()
+			if done {
+				return true
+			}
 		}
 		if time.Now().After(deadline) {
 			return false
